@@ -8,6 +8,8 @@ def run(rep, tier, seed):
     rep.add_tlc("ObserveMC", res)
     res1 = tlc.run_tlc("ObserveMC", "ObserveMC_sets_%s.cfg" % tier, timeout=5000, workers=8, heap="8g")
     rep.add_tlc("ObserveMC(sets, nested containers, dynamic traits)", res1)
+    res1b = tlc.run_tlc("ObserveMC", "ObserveMC_box_%s.cfg" % tier, timeout=5000, workers=8, heap="8g")
+    rep.add_tlc("ObserveMC(list-or-int attribute with required list items, deletions)", res1b)
     res2 = tlc.run_tlc("ObserveImpl", "ObserveImpl_%s.cfg" % tier, timeout=5000, workers=8, heap="8g")
     rep.add_tlc("ObserveImpl(refinement, no self-loops)", res2)
     # design-level evidence of known finding F8: with mutations of objects on a cycle allowed the refinement FAILS
